@@ -60,11 +60,13 @@ func genC01(r *core.Rng, id int) *Case {
 			}
 		}
 	}
-	if id%6 == 4 {
+	if id%12 == 7 {
 		// an object type bound globally, and generated as a struct after all at one place by the
-		// documented `typename: ..., bind: "-"`
+		// documented `typename: ..., bind: "-"`.  The program is this one operation: a global
+		// binding constrains every other use of the type (no typename there, no selection-derived
+		// type), which the random decoration knows nothing about.
 		if op, tn := gen.BoundObjectUnboundHereOp(s, "BO"); op != nil {
-			defs = append(defs, op)
+			defs = []*gen.Def{op}
 			l = gen.SingleFile(len(defs))
 			cfg.Bindings[tn] = "example.com/b.T" // a type of the scratch module's stub package b
 		}
